@@ -121,6 +121,11 @@ pub fn run_real(c: &EmitCase) -> Result<Emitted, String> {
             if let Some(f) = reqs.first() {
                 if let Ok(old) = std::fs::read_to_string(f) { let _ = std::fs::write(f, format!("// hand-written notes for this operation\n// libninja: after\n{old}")); }
             }
+            // ... and the example of the first operation kept by hand (the static directive above its generated text)
+            if let Some(op) = h.operations.first() {
+                let f = d.join("examples").join(format!("{}.rs", mir_rust::sanitize_filename(&op.file_name())));
+                if let Ok(old) = std::fs::read_to_string(&f) { let _ = std::fs::write(&f, format!("// libninja: static\n{old}")); }
+            }
             r = generate(&spec, &c.cfg, &d);
         }
     }
